@@ -234,6 +234,13 @@ def judge(ctx, case, obs, mouts):
                     exp = None
                 if exp is not None and pairs != exp:
                     ctx.violation("oracle", f"{op}:wrong-pairs", f"{op}_join paired rows {pairs}, first-match semantics requires {exp}", case, obs, exp)
+                # the column set of a join: the left frame's columns, then the right frame's columns that are neither a right
+                # key nor a name the left frame has — the same for left, inner and full join (inner = the matched subset of left)
+                lcols = [c["name"] for c in L["cols"]] + ["_lid_"]
+                rkeys = {x[1] for x in by}
+                expcols = lcols + [c for c in [c["name"] for c in R["cols"]] + ["_rid2_"] if c not in rkeys and c not in lcols]
+                if obs["colnames"] != expcols:
+                    ctx.violation("oracle", f"{op}:column-set", f"{op}_join returned the columns {obs['colnames']}, expected {expcols}", case, obs, expcols)
                 if op == "full":
                     ln = [x[0] for x in by]
                     rn = [x[1] for x in by]
